@@ -238,3 +238,5 @@ def run(chk):
     X.rule_clone_copies_data(chk, "C10.6")
     X.rule_clone_decision_from_input(chk, "C10.7")
     X.rule_initial_state_plain(chk, "C10.8")
+    rule_read_bypass = F.rule_read_bypass_implies_write_bypass
+    rule_read_bypass(chk, F.Evaluate(chk.repo), F.EvalAction(chk.repo), "C10.9")
